@@ -1,6 +1,6 @@
 (** C18 — every jump/split target of the label-free compilation lies inside the program. *)
 From Coq Require Import List NArith Bool Arith Lia.
-From Acg Require Import Base.Outcome Model.RevmTree Model.Revm Model.RevmVM Model.RevmComp
+From Acg Require Import Base.Outcome Model.RevmTree Model.Revm Model.RevmVM Model.RevmComp Model.RevmShape
   Proofs.RevmFrag Proofs.RevmCompCorrect Proofs.RevmTop.
 Import ListNotations.
 
